@@ -3,13 +3,14 @@ import MimeModel.Model.Charset
 import MimeModel.Gen.Sigs
 import MimeModel.Model.Lines
 import MimeModel.Model.Csv
+import MimeModel.Model.Srt
 /-
   Hand-written models of the signature checks the extractor cannot translate
   (`Det.custom`): Text, Php, JSON/GeoJSON/HAR/GLTF, NdJSON, Tar, CRX, WebM, Mkv, and
   the helpers `dropLastLine`, `scanLine`, `tarParseOctal`, `tarChksum`.
   (the line helpers are in Model/Lines.lean).  Csv and Tsv run the model of `encoding/csv` of
-  Model/Csv.lean.  Srt depends on `time.Parse` and is not modelled (`none` from `customModel`:
-  its real verdict is taken as an oracle).
+  Model/Csv.lean.  Srt runs the model of `time.Parse("15:04:05,000", ·)` of Model/Srt.lean.  No signature check
+  of the current tree is left unmodelled (`.unknown` would be a check the extractor does not know).
 -/
 namespace Mime.Cust
 open Mime Mime.Json Mime.Charset
@@ -141,7 +142,8 @@ def customModel : Custom → Option (Bytes → Nat → Option Bool)
   | .mkv => some (fun raw _ => matroska raw kMatroska)
   | .csv => some (fun raw lim => some (Csv.sv raw lim 0x2C))
   | .tsv => some (fun raw lim => some (Csv.sv raw lim 0x09))
-  | .srt | .unknown => none
+  | .srt => some (fun raw _ => some (Srt.srt raw))
+  | .unknown => none
 
 /-- total evaluation used by theorems: unmodelled kinds are a parameter `ext` -/
 def custEval (ext : Custom → Bytes → Nat → Bool) : Custom → Bytes → Nat → Option Bool :=
